@@ -171,7 +171,7 @@ pub fn escape_table(cx: &mut Ctx, refd: &serde_json::Value, rule: &str) {
         Some(po) => {
             let t = sm::tsx(&po.block);
             let maxd = refd["octal"]["max_digits"].as_u64().unwrap();
-            let loop_ok = t.contains(&format!("whileoctet_content.len()<{}{{ifletSome('0'..='7')=self.peek(){{octet_content.push(self.next_char().unwrap())}}else{{break;}}}}", maxd));
+            let loop_ok = t.contains(&format!("whileoctet_content.len()<{}{{matchself.peek(){{Some('0'..='7')=>{{octet_content.push(self.next_char().unwrap())}},_=>{{break;}},}}}}", maxd));
             let conv_ok = t.ends_with("letvalue=u32::from_str_radix(&octet_content,8).unwrap();char::from_u32(value).unwrap()}");
             if loop_ok {
                 cx.ok(rule, "parse_octet reads at most 3 octal digits, each peeked as '0'..='7' before it is consumed");
@@ -191,7 +191,7 @@ pub fn escape_table(cx: &mut Ctx, refd: &serde_json::Value, rule: &str) {
         Some(pu) => {
             let t = sm::tsx(&pu.block);
             let ok = t.contains("foriin1..=literal_number{matchself.next_char(){Some(c)=>matchc.to_digit(16){Some(d)=>p+=d<<((literal_number-i)*4),None=>returnErr(unicode_error),},None=>returnErr(unicode_error),}}")
-                && t.contains("matchp{0xD800..=0xDFFF=>Ok(std::char::REPLACEMENT_CHARACTER),_=>std::char::from_u32(p).ok_or(unicode_error),}");
+                && t.contains("matchp{55296..=57343=>Ok(std::char::REPLACEMENT_CHARACTER),_=>std::char::from_u32(p).ok_or(unicode_error),}");
             if ok {
                 cx.ok(rule, "parse_unicode_literal: n hex digits, most significant first; surrogates -> U+FFFD; invalid scalar -> error");
             } else {
@@ -625,7 +625,7 @@ fn value_conversions(cx: &mut Ctx) {
         ("decimal-int", "letvalue=value_text.parse::<BigInt>().unwrap();", "decimal integers: value_text.parse::<BigInt>()"),
         ("float", "letvalue=f64::from_str(&value_text).map_err(", "floats: f64::from_str(&value_text)"),
         ("imag-int", "letimag=f64::from_str(&value_text).unwrap();", "imaginary integer literals: f64::from_str(&value_text)"),
-        ("radix_run-push", "ifletSome(c)=self.take_number(radix){value_text.push(c);}", "radix_run pushes every digit it takes"),
+        ("radix_run-push", "matchself.take_number(radix){Some(c)=>{value_text.push(c);},", "radix_run pushes every digit it takes"),
         ("complex-value", "Tok::Complex{real:0.0,imag:value,}", "the float path's imaginary literal carries the parsed value with real 0.0"),
     ];
     for (k, frag, what) in checks {
@@ -656,7 +656,7 @@ fn lex_string_order(cx: &mut Ctx) {
     let Some(lx) = lr::load_lexer(cx, rule) else { return };
     let Some(f) = lr::lexer_method(&lx, "lex_string") else { return cx.anchor_missing(rule, "lex_string") };
     let t = sm::tsx(&f.block);
-    let p_bs = t.find("ifc=='\\\\'{ifletSome(next_c)=self.next_char(){string_content.push('\\\\');string_content.push(next_c);continue;}}");
+    let p_bs = t.find("matchc{'\\\\'=>{matchself.next_char(){Some(next_c)=>{string_content.push('\\\\');string_content.push(next_c);continue;},_=>{},}},_=>{},}");
     let p_eol = t.find("ifc=='\\n'&&!triple_quoted{");
     let p_q = t.find("ifc==quote_char{");
     match (p_bs, p_eol, p_q) {
